@@ -3,7 +3,7 @@
    Model: RbcModel.v (per-call step functions of CachinKursawePetzoldShoupRBC and a network of n parties with
    Byzantine members); n, t, fifo_skip, the digest hash H and the digest length test are universally quantified. *)
 From Coq Require Import ZArith List Bool Lia.
-From LT Require Import RbcModel RbcLemmas RbcOrder RbcAgreement.
+From LT Require Import RbcModel RbcLemmas RbcOrder RbcStep RbcAgreement RbcBracha.
 Import ListNotations.
 Local Open Scope Z_scope.
 
@@ -72,16 +72,96 @@ Theorem C14_no_dup_nonfifo_refuted : ~ no_duplicate_statement.
 Proof. exact no_dup_nonfifo_refuted. Qed.
 Print Assumptions C14_no_dup_nonfifo_refuted.
 
-(* agreement, the counting core: two quorums of n - t distinct parties share a party outside any set of <= t faulty ones
-   (hence: two different digests cannot both collect n - t echoes from parties that echo once) *)
-Theorem C14_agreement_quorum_intersection_partial : forall (n t : Z) (B L1 L2 : list Z),
+(* ---- agreement and integrity over the network model ---------------------------------------------------------
+   All n > 3t, every Byzantine set of at most t parties (byz, contained in the list B), every schedule (list of events folded
+   with gstep: Broadcast / Deliver / DeliverFrom / channel switches at any honest party; the transport may delay, reorder and
+   duplicate, and hands over anything on links from Byzantine parties), every fifo_skip, FIFO and non-FIFO channels.
+   H is the digest hash; it is assumed never to be 0 (the code uses 0 for "no payload") and, for the value statements, injective. *)
+
+(* the digest an honest party accepts for a slot (dbar: 2t+1 r-ready) is the same at all honest parties *)
+Theorem C14_agreed_digest_unique : forall n t skip H toolong byz, 3 * t < n -> 0 <= t ->
+  forall B, Z.of_nat (length B) <= t -> (forall l, byz l = true -> In l B) ->
+  forall es p q tg d d',
+    dbar (gp (grun n t skip H toolong byz es) p) tg = Some d ->
+    dbar (gp (grun n t skip H toolong byz es) q) tg = Some d' -> d = d'.
+Proof. exact dbar_agree_run. Qed.
+Print Assumptions C14_agreed_digest_unique.
+
+(* AGREEMENT: no two honest parties deliver different values for the same (ID, sender, s) -- every slot, including slots a
+   party fetched through the out-of-order handler (l-retrieve / l-deliver) *)
+Theorem C14_agreement : forall n t skip H toolong byz, 3 * t < n -> 0 <= t ->
+  forall B, Z.of_nat (length B) <= t -> (forall l, byz l = true -> In l B) ->
+  (forall m, H m <> 0) -> (forall a b, H a = H b -> a = b) ->
+  forall es p q tg v v',
+    In (p, tg, v) (glog (grun n t skip H toolong byz es)) -> In (q, tg, v') (glog (grun n t skip H toolong byz es)) ->
+    v = v'.
+Proof. exact agreement. Qed.
+Print Assumptions C14_agreement.
+
+(* INTEGRITY: a slot (id, j, s) of a non-faulty sender j is delivered only with a value v that j passed to Broadcast: the
+   schedule contains that Broadcast call, and the r-send (id, j, s, v) is among the messages it sent *)
+Theorem C14_integrity : forall n t skip H toolong byz, 3 * t < n -> 0 <= t ->
+  forall B, Z.of_nat (length B) <= t -> (forall l, byz l = true -> In l B) ->
+  (forall m, H m <> 0) -> (forall a b, H a = H b -> a = b) ->
+  forall es p id j s v,
+    In (p, (id, j, s), v) (glog (grun n t skip H toolong byz es)) -> byz j = false ->
+    exists es1 coin es2 dst, es = es1 ++ EBcast j v coin :: es2 /\
+      In (dst, Msg id j s 1 v) (snd (broadcast n j (gp (grun n t skip H toolong byz es1) j) v coin)).
+Proof. exact integrity. Qed.
+Print Assumptions C14_integrity.
+
+(* the same without assuming an injective hash: equal digests *)
+Theorem C14_agreement_digest : forall n t skip H toolong byz, 3 * t < n -> 0 <= t ->
+  forall B, Z.of_nat (length B) <= t -> (forall l, byz l = true -> In l B) -> (forall m, H m <> 0) ->
+  forall es p q tg v v',
+    In (p, tg, v) (glog (grun n t skip H toolong byz es)) -> In (q, tg, v') (glog (grun n t skip H toolong byz es)) ->
+    H v = H v'.
+Proof. exact agreement_digest_full. Qed.
+Print Assumptions C14_agreement_digest.
+
+(* values handed out by DeliverFrom are Deliver deliveries of the same party on the same channel, hence agree too *)
+Theorem C14_agreement_deliverfrom : forall n t skip H toolong byz, 3 * t < n -> 0 <= t ->
+  forall B, Z.of_nat (length B) <= t -> (forall l, byz l = true -> In l B) ->
+  (forall m, H m <> 0) -> (forall a b, H a = H b -> a = b) ->
+  forall es p q c i v v' s,
+    In (p, c, i, v) (gapi (grun n t skip H toolong byz es)) -> In (q, (c, i, s), v') (glog (grun n t skip H toolong byz es)) ->
+    exists s', In (p, (c, i, s'), v) (glog (grun n t skip H toolong byz es)) /\ (s' = s -> v = v').
+Proof. exact agreement_deliverfrom. Qed.
+Print Assumptions C14_agreement_deliverfrom.
+
+(* TOTALITY, the part that is proved (`_partial`): once every r-ready has been handed over to its honest receivers
+   (ready_quiescent: the first-time filter ready[l][tag] is set for every r-ready (l -> q) in the network), a digest accepted
+   for a slot by ONE honest party (dbar: 2t+1 r-ready -- the precondition of every delivery on the Bracha path) is accepted
+   by EVERY honest party: t+1 honest readys reach everybody, everybody amplifies, everybody collects n-t >= 2t+1.
+   The rest of the liveness clause (payload retrieval by r-request/r-answer, the deliver buffer, validity for honest senders)
+   is stated as RbcBracha.delivery_at_quiescence_statement and is NOT proved. *)
+Theorem C14_totality_digest_partial : forall n t skip H toolong byz, 3 * t < n -> 0 <= t ->
+  forall B, Z.of_nat (length B) <= t -> (forall l, byz l = true -> In l B) ->
+  (forall tg x, toolong tg (H x) = false) ->
+  forall es p q tg d,
+    ready_quiescent n byz (grun n t skip H toolong byz es) ->
+    dbar (gp (grun n t skip H toolong byz es) p) tg = Some d -> honest n byz q = true ->
+    dbar (gp (grun n t skip H toolong byz es) q) tg = Some d.
+Proof. exact totality_digest. Qed.
+Print Assumptions C14_totality_digest_partial.
+
+(* r-send messages of an honest party exist only because of its own Broadcast calls (nobody can make it "send" a value) *)
+Theorem C14_rsend_only_by_broadcast : forall n t skip H toolong byz es j dst m,
+  In (j, dst, m) (gsent (grun n t skip H toolong byz es)) -> m_act m = 1 ->
+  exists es1 v coin es2, es = es1 ++ EBcast j v coin :: es2 /\ honest n byz j = true /\
+                         In (dst, m) (snd (broadcast n j (gp (grun n t skip H toolong byz es1) j) v coin)).
+Proof. exact rsend_only_by_broadcast. Qed.
+Print Assumptions C14_rsend_only_by_broadcast.
+
+(* the counting core: two quorums of n - t distinct parties share a party outside any set of <= t faulty ones *)
+Theorem C14_quorum_intersection : forall (n t : Z) (B L1 L2 : list Z),
   3 * t < n -> 0 <= t -> Z.of_nat (length B) <= t ->
   NoDup L1 -> NoDup L2 ->
   (forall l, In l L1 -> 0 <= l < n) -> (forall l, In l L2 -> 0 <= l < n) ->
   n - t <= Z.of_nat (length L1) -> n - t <= Z.of_nat (length L2) ->
   exists l, In l L1 /\ In l L2 /\ ~ In l B.
 Proof. exact quorum_intersect_honest. Qed.
-Print Assumptions C14_agreement_quorum_intersection_partial.
+Print Assumptions C14_quorum_intersection.
 
 (* non-vacuity *)
 Example C14_nonvacuous_f8_log : glog f8_run = [(3, (5, 0, 9), 42); (3, (5, 0, 9), 42); (3, (5, 0, 9), 42)].
@@ -93,3 +173,32 @@ Proof. vm_compute. reflexivity. Qed.
 (* an lrun that really delivers: P3's three r-answers on the FIFO channel, from the state just before *)
 Example C14_nonvacuous_quorum : exists l, In l [0; 1; 2] /\ In l [1; 2; 3] /\ ~ In l [1].
 Proof. exists 2. cbn. intuition lia. Qed.
+
+(* a real n = 4, t = 1 run meeting every premise of the agreement / integrity theorems: P0 broadcasts 42, all four deliver *)
+Example C14_nonvacuous_full_run :
+  glog full_run = [(0, (0, 0, 1), 42); (1, (0, 0, 1), 42); (2, (0, 0, 1), 42); (3, (0, 0, 1), 42)].
+Proof. exact full_run_log. Qed.
+Example C14_nonvacuous_agreement_premises :
+  3 * 1 < 4 /\ (forall m, Hodd m <> 0) /\ (forall a b, Hodd a = Hodd b -> a = b) /\
+  In (1, (0, 0, 1), 42) (glog full_run) /\ In (3, (0, 0, 1), 42) (glog full_run).
+Proof.
+  split; [lia|]. split; [exact Hodd_nonzero|]. split; [exact Hodd_inj|]. rewrite full_run_log.
+  split; [cbn; auto|cbn; auto 6].
+Qed.
+Example C14_nonvacuous_integrity_instance :
+  exists es1 coin es2 dst, full_events = es1 ++ EBcast 0 42 coin :: es2 /\
+    In (dst, Msg 0 0 1 1 42) (snd (broadcast 4 0 (gp (grun 4 1 0 Hodd (fun _ _ => false) (fun _ => false) es1) 0) 42 coin)).
+Proof.
+  assert (N3 : 3 * 1 < 4) by lia. assert (T0 : 0 <= 1) by lia.
+  assert (Bs : Z.of_nat (length (@nil Z)) <= 1) by (cbn; lia).
+  assert (Bb : forall l : Z, (fun _ : Z => false) l = true -> In l []) by discriminate.
+  assert (P1 : In (2, (0, 0, 1), 42) (glog full_run)) by (rewrite full_run_log; cbn; auto).
+  exact (C14_integrity 4 1 0 Hodd (fun _ _ => false) (fun _ => false) N3 T0 [] Bs Bb Hodd_nonzero Hodd_inj
+           full_events 2 0 0 1 42 P1 eq_refl).
+Qed.
+
+(* the run above with every r-ready handed over meets the premises of the totality theorem *)
+Example C14_nonvacuous_totality_premises :
+  ready_quiescent 4 (fun _ => false) quiet_run /\ dbar (gp quiet_run 0) (0, 0, 1) = Some 85 /\
+  honest 4 (fun _ => false) 3 = true.
+Proof. split; [exact quiet_run_quiescent|]. split; [exact quiet_run_dbar|reflexivity]. Qed.
